@@ -211,7 +211,21 @@ let handle (x : sexp) : (string * string) list =
         match run with
         | L (A "run" :: S label :: _raw :: rest) ->
           let q = (match find_field "q" rest with Some [S q] -> q | _ -> "?") in
-          let ctx = Printf.sprintf " run=%s q=%s" (quote_string label) (quote_string (clip 600 q)) in
+          let shape_sx0 = (match find_field "shape" rest with Some [s] -> Some s | _ -> None) in
+          (* position contexts of the field-resolver / @requires fields of this run (for classification) *)
+          let tags = (match shape_sx0 with
+              | None -> []
+              | Some s ->
+                let acc = ref [] in
+                let rec walk = function
+                  | L (A "k" :: _ :: _ :: t :: A tag :: _) ->
+                    if String.length tag >= 8 && (String.sub tag 0 8 = "resolver" || String.sub tag 0 8 = "requires") && not (List.mem tag !acc) then acc := tag :: !acc;
+                    walk t
+                  | L l -> List.iter walk l
+                  | _ -> () in
+                walk s; List.sort compare !acc) in
+          let feat = (match find_field "feat" rest with Some [A f] -> f | _ -> "none") in
+          let ctx = Printf.sprintf " feat=%s tags=%s run=%s q=%s" feat (String.concat "," tags) (quote_string label) (quote_string (clip 600 q)) in
           let shape_sx = (match find_field "shape" rest with Some [s] -> Some s | _ -> None) in
           let shape = (match shape_sx with Some s -> Some (gsel_of s) | None -> None) in
           let info = { label; q; shape; data = None } in
